@@ -5,10 +5,12 @@ import os
 import shutil
 import sys
 
-OUTS = [("/tmp/out", ""), ("/tmp/out2", "2")]   # (directory, prefix of the change letter): round 1, round 2
+OUTS = [("/tmp/out", ""), ("/tmp/out2", "2"), ("/tmp/out3", "3")]   # (directory, prefix of the change letter): round 1, round 2
 DST = os.path.join(os.path.dirname(os.path.dirname(os.path.abspath(__file__))), "seeded")
 # neutralised by a genuine-defect repair (the demo passes with the patch applied to the repaired tree): not kept
 DROPPED = {("C02", "A"), ("C19", "A")}
+# changes labelled with one property which are decided by the check of another one (tools/seeded_matrix.py runs these too)
+ALSO_RUN = {("C17", "2B"): ["C09"]}
 # rebased onto the repaired tree: the rebased patch is the one to keep
 REBASED = {("C11", "B"): "patch_rebased.diff"}
 for OUT, PREFIX in OUTS:
@@ -47,5 +49,7 @@ for OUT, PREFIX in OUTS:
             },
             "detected_by": old.get("detected_by", "not yet run"),
         }
+        if (pid, PREFIX + x) in ALSO_RUN:
+            meta["also_run"] = ALSO_RUN[(pid, PREFIX + x)]
         json.dump(meta, open(meta_path, "w"), indent=1)
         print(pid, x, "confirmed" if conf.get("confirmed") else "NOT CONFIRMED", conf.get("demo_rc_clean"), conf.get("demo_rc_patched"), conf.get("new_suite_failures"))
